@@ -238,6 +238,9 @@ inductive Err
   | decodeError (encoding : Name)
   /-- `SyntaxError` of `parse_encoding` (BOM and magic comment in a Python file) -/
   | syntaxError
+  /-- a preprocessor (a function on `str`) was handed the undecoded bytes – only in the variant of `Lexer.parse` that
+      runs the preprocessors before `decode_raw_stream` (`decodeBeforePreprocessors = false`) -/
+  | preprocessorOnBytes
   deriving DecidableEq, Repr
 
 /-- the exception class a caller sees -/
@@ -321,6 +324,25 @@ def lexStart (env : Env) (inp : Input) (known : Option Name) : Except Err LexIn 
   | .ok (n, .str t) => .ok ⟨n, t, codingSkip t⟩
   | .ok (n, .bytes _) => .error (.undecodable n)     -- unreachable: `decode_raw=True` always returns str
 
+/-- `for preproc in self.preprocessor: self.text = preproc(self.text)` -/
+def applyAll (pre : List (Text → Text)) (t : Text) : Text := pre.foldl (fun t f => f t) t
+
+/-- `Lexer.parse` up to its loop, with preprocessors: `decode_raw_stream` first, then the preprocessors on the decoded
+    `str`, then the skip of the coding comment on what they returned (statement order regenerated from `Lexer.parse`:
+    `decodeBeforePreprocessors`, `skipAfterPreprocessors`) -/
+def lexStartP (env : Env) (inp : Input) (known : Option Name) (pre : List (Text → Text)) : Except Err LexIn :=
+  if Generated.Encoding.decodeBeforePreprocessors then
+    match decodeRawStream env inp true known with
+    | .error e => .error e
+    | .ok (n, .str t) =>
+      .ok ⟨n, applyAll pre t, if Generated.Encoding.skipAfterPreprocessors then codingSkip (applyAll pre t) else codingSkip t⟩
+    | .ok (n, .bytes _) => .error (.undecodable n)
+  else
+    match inp, pre with
+    | .bytes _, _ :: _ => .error .preprocessorOnBytes
+    | .bytes b, [] => lexStart env (.bytes b) known
+    | .str t, _ => lexStart env (.str (applyAll pre t)) known
+
 /-! ## The generated module: magic comment, `repr`, `_compile_module_file` -/
 
 /-- `"# -*- coding:%s -*-" % source_encoding` -/
@@ -386,19 +408,35 @@ def Piece.wellFormed : Piece → Bool
   | _ => true
 
 /-- `codegen.compile(…, source_encoding, generate_magic_comment)`: the module text -/
-def moduleText (np : Char → Bool) (sourceEncoding : Option Name) (magic : Bool) (body : List Piece) : Text :=
-  (match magic, sourceEncoding with
-   | true, some (c :: cs) => magicLine (c :: cs) ++ ['\n']
-   | _, _ => []) ++ body.flatMap (Piece.render np)
+def joinNames (sep : Text) : List Name → Text
+  | [] => []
+  | [a] => a
+  | a :: b :: r => a ++ sep ++ joinNames sep (b :: r)
+
+/-- `"from __future__ import %s" % ", ".join(future_imports)` – written only `if self.compiler.future_imports:` -/
+def futureLine (future : List Name) : Text :=
+  match future with
+  | [] => []
+  | _ => Generated.Encoding.futurePrefix ++ joinNames Generated.Encoding.futureSep future ++ ['\n']
+
+def moduleText (np : Char → Bool) (sourceEncoding : Option Name) (magic : Bool) (future : List Name) (body : List Piece) :
+    Text :=
+  let m : Text :=
+    match magic, sourceEncoding with
+    | true, some (c :: cs) => magicLine (c :: cs) ++ ['\n']
+    | _, _ => []
+  -- the order in which `write_toplevel` writes the two lines (regenerated: `magicCommentFirst`)
+  (if Generated.Encoding.magicCommentFirst then m ++ futureLine future else futureLine future ++ m)
+    ++ body.flatMap (Piece.render np)
 
 /-- `_compile_module_file`: `source.encode(lexer.encoding or "ascii")` – the bytes handed to the module writer -/
-def compileModuleFile (env : Env) (np : Char → Bool) (lexerEncoding : Option Name) (body : List Piece) :
-    Except Err Bytes :=
+def compileModuleFile (env : Env) (np : Char → Bool) (lexerEncoding : Option Name) (future : List Name)
+    (body : List Piece) : Except Err Bytes :=
   let n := orDefault lexerEncoding Generated.Encoding.moduleFallback
   match env.codecOf n with
   | none => .error (.unknownCodec n)
   | some c =>
-    match c.enc (moduleText np lexerEncoding Generated.Encoding.magicInModuleFile body) with
+    match c.enc (moduleText np lexerEncoding Generated.Encoding.magicInModuleFile future body) with
     | none => .error (.unencodable n)
     | some b => .ok b
 
